@@ -21,23 +21,37 @@ RULE = ("one case = one parsed config (treelib's generators with line bodies swa
         "directly; IPv4Obj rows by calling IPv4Obj directly. The oracle judges a query only when the requested group participated "
         "in every line it has to read, or nothing matched. non-trivial = some query on a line with children whose family contains a "
         "match; distinct by request. Not generated: invalid patterns, '_' digit separators and non-ASCII digits, lone surrogates, "
-        "the groupdict= path, float/IPv4Obj defaults, ints beyond 2**32.")
+        "float/IPv4Obj defaults, ints beyond 2**32. "
+        "Two extra streams outside the property's quantifier (about 1 in 6 and 1 in 8 of the random cases): (gd) groupdict= requests "
+        "- 11 patterns with named groups, type dicts of 0-4 keys incl. a key that is no group name and type None, defaults that equal "
+        "a captured text, ops re_match_iter_typed / re_list_iter_typed, both recurse values (bucket gd-defect counts the cases where "
+        "the first child does not match but a later one does); (st) edit states - parse (auto_commit on/off), one ConfigList.insert "
+        "at a boundary-biased index, optional commit, then the five ops on the objects of the last commit.")
 LEVEL_TEXT = ("Theorems (Lean 4, all trees, all regex oracles, all IPv4 parsers): re_match_iter_typed returns result_type(group) of the "
               "first matching line of [self] + children (recurse=False) / [self] + all_children (recurse=True), and the default "
               "(converted iff not untyped_default) exactly when no line of that order matches; re_match_typed is the one-line variant "
               "with its unset-group -> default rule; re_list_iter_typed is the conversion mapped over the matching lines of the order, "
               "in order, failing at the first failing conversion; CiscoConfParse.re_match_iter_typed reads the root lines in config "
-              "order. The model is tied to the real methods by differential runs on every check.")
+              "order. For every parsed config (no hypothesis; uses C03's parse_forest/allChildren_spec) the recursive order is proved "
+              "to be the line followed by exactly its descendants (transitive closure of the parent link) in config order, each once "
+              "(order_is_descendants), and the four statements are restated for parsed configs in those terms (*_parsed). "
+              "The model is tied to the real methods by differential runs on every check. Outside the property's quantifier, modelled as "
+              "the code is and measured the same way: the groupdict= path (iterDict_recurse; the defective recurse=False branch and the "
+              "never-returning list variant as *_partial theorems) and the search_safe guard on Ccp.Edit states (stale_raises, "
+              "stale_states, root_on_committed; the unguarded config-level method as root_unguarded_partial).")
 LEVEL_NOTE = ("Trusted: Lean kernel; axioms propext/Classical.choice/Quot.sound only; the correspondence harness. Python's re and IPv4Obj "
               "are parameters of the model (universally quantified in the theorems, supplied per request by calling re / IPv4Obj "
-              "directly); float() is represented by its argument text plus a hand-written recogniser of accepted texts. That "
-              "all_children is 'all descendants in config order' is C03's theorem about the shared tree model; here the order is "
-              "proved to be self followed by the (ascending) all_children / children lists.")
+              "directly); float() is represented by its argument text plus a hand-written recogniser of accepted texts. The tree "
+              "facts come from C03's theorems about the shared tree model (Ccp.Tree.parse), whose agreement with the real parser is "
+              "measured by C01-C03. groupdict= requests and stale-config requests are outside the property (it speaks of 'the requested "
+              "capture group' of a parsed config): the oracle does not judge groupdict answers at all (correspondence only) and, for "
+              "edit states, judges committed states like any parsed config and checks only that the guard fires on stale ones. The "
+              "stale states exercised are parse + one ConfigList.insert (+ commit), through Ccp.Edit.step.")
 ASSUMPTIONS = [
     "re.search / Match.group are an oracle Str -> noMatch | noGroup | unset | val s, fixed per (regex, group)",
     "IPv4Obj(x) is an opaque function of x (C11's subject)",
     "int()/float() texts use ASCII digits, no '_' separators",
-    "the config is searched right after parsing (search_safe is True)",
+    "plain and groupdict requests search right after parsing; stale configs are reached by one ConfigList.insert only",
 ]
 TRUSTED = ["tree model Ccp.Tree.parse (validated by C01-C03's correspondence)", "float() acceptance recogniser (hand-written, measured)"]
 EXHAUSTIVE = {"quick": False, "thorough": False}
